@@ -27,6 +27,8 @@ T1 == Prims \cup {Iface, Struct("Empty", <<>>), MapOf(Struct("Empty", <<>>)), Ar
       \cup {Ptr(Std(w)) : w \in {"bigint", "bigrat", "bigfloat", "time"}}
 T2 == {Ptr(t) : t \in SomePrims \cup {Iface}} \cup {Slice(t) : t \in SomePrims \cup {Iface}}
       \cup {Array(t, 2) : t \in {Prim("int8"), Prim("string")}} \cup {MapOf(t) : t \in SomePrims \cup {Iface}}
+      \* maps whose values are nullable unbounded scalars (additionalProperties: {"type": ["null", X]})
+      \cup {MapOf(Ptr(Prim(p))) : p \in {"string", "bool", "int", "float64"}}
 T3 == {Ptr(Ptr(Prim("int8"))), Slice(Ptr(Prim("uint8"))), Slice(Slice(Prim("string"))), MapOf(Slice(Prim("int16"))),
        Ptr(Slice(Prim("int32"))), Slice(MapOf(Prim("uint32"))), MapOf(MapOf(Prim("bool"))), Ptr(MapOf(Prim("float32"))),
        Array(Ptr(Prim("int64")), 2), MapOf(Ptr(Prim("string"))), Ptr(Inner), Slice(Inner), MapOf(Inner), Slice(Ptr(Inner))}
@@ -65,6 +67,11 @@ S6 == {Struct("S", <<Field("A", "", {"omitempty"}, Prim("int8")), Field("B", "",
                      Field("C", "", {"omitzero"}, Prim("bool")), Field("D", "", {"omitzero"}, Slice(Prim("string")))>>),
        Struct("S", <<Field("Count", "", {"omitzero"}, Prim("int")), Field("Label", "", {"omitzero"}, Prim("string")),
                      Field("In", "", {}, Struct("Lim", <<Field("Lo", "", {"omitempty"}, Prim("uint8")), Field("Hi", "", {"omitempty"}, Prim("float64"))>>))>>)}
+\* white space inside tags is part of what it touches: " b" and " -" are NAMES (the latter does not omit the field),
+\* " omitempty" / " omitzero" are options encoding/json does not know (the field stays required)
+S8 == {Struct("S", <<Field("A", " b", {}, Prim("int8")), Field("B", " -", {}, Prim("string")), Field("C", "c", {" omitempty"}, Prim("int8")),
+                     Field("D", "", {" omitzero"}, Prim("string")), Field("E", "e ", {"omitempty"}, Prim("bool"))>>),
+       Struct("S", <<Field("A", " ", {}, Prim("int8")), Field("In", " in", {" omitempty", "omitzero"}, Struct("In8", <<Field("X", " x", {}, Prim("uint8"))>>))>>)}
 \* two levels of embedding with one JSON name claimed at depth 1 and at depth 2 (different Go names): the
 \* shallower field is the one encoding/json emits. (Family X: the known finding KF-jsonname - here the code gets the
 \* property's schema right and lists the name twice in "required")
@@ -152,7 +159,7 @@ OCases == {[t |-> t, ign |-> ign, tsn |-> "none"] : t \in ODesc, ign \in BOOLEAN
 
 Types(z) ==
   CASE Family = "T" -> IF K >= 2 THEN UNION {T1, T2, T3} ELSE UNION {T1, T2}
-    [] Family = "S" -> IF K >= 2 THEN UNION {S1, S2, S3, S5, S6} ELSE UNION {S1, S3, S5, S6}
+    [] Family = "S" -> IF K >= 2 THEN UNION {S1, S2, S3, S5, S6, S8} ELSE UNION {S1, S3, S5, S6, S8}
     [] Family = "X" -> S4 \cup S7
     [] Family = "O" -> OCases
 
